@@ -15,6 +15,7 @@ EXPLANATION = (
     "constant = 100/F_L·27.13^exponent, same |x| and sign treatment); M16·M16⁻¹ = I and the opponent matrix inverse are discharged exactly; "
     "attribute interconversions compose to the identity as rational functions; partial types copy same-named attributes; "
     "black converts to black.  Not decided: floating-point accuracy of the round trip."
+    " CAM16-FWD: entry points (from_xyz / into_xyz / into_full, Alpha forms) and Convert plumbing hand the colour and the caller's parameters to the conversion of their direction."
 )
 
 PHANTOM = Struct("PhantomData", {})
